@@ -391,10 +391,67 @@ pub fn run() -> i32 {
             });
         }
     }
+    // long buffered histories: 21..=80 parts buffered over 2..4 streams in assorted stream orders, one flush
+    let many = AtomicU64::new(0);
+    let lens: Vec<usize> = if th { (2..=96).collect() } else { vec![19, 20, 21, 22, 33, 50, 64, 80] };
+    let mut mjobs: Vec<(usize, usize, usize)> = Vec::new();
+    for &n in &lens { for ns in 2..=4usize { for pat in 0..6usize { mjobs.push((n, ns, pat)); } } }
+    par_for(mjobs.len(), ncpu(), |j| {
+        let (n, ns, pat) = mjobs[j];
+        let path = format!("{}/many{}.agc", dir.display(), j);
+        let r = guarded(|| -> Result<(), String> {
+            let mut w = Archive::new_writer();
+            w.open(&path).map_err(|e| e.to_string())?;
+            let ids: Vec<usize> = (0..ns).map(|i| w.register_stream(&format!("s{i}"))).collect();
+            let mut model: Vec<Vec<(Vec<u8>, u64)>> = vec![vec![]; ns];
+            let mut pending: Vec<Vec<(Vec<u8>, u64)>> = vec![vec![]; ns];
+            let mut x = 12345u64 + j as u64;
+            for i in 0..n {
+                x = x.wrapping_mul(6364136223846793005).wrapping_add(1442695040888963407);
+                let s = match pat { 0 => i % ns, 1 => (ns - 1) - (i % ns), 2 => (x >> 33) as usize % ns, 3 => if i % 3 == 0 { 0 } else { ns - 1 }, 4 => (i / 5) % ns, _ => (i * i + 1) % ns };
+                let data = vec![(i % 251) as u8 + 1; 1 + i % 4];
+                let meta = 1000 + i as u64;
+                if pat == 4 && i % 17 == 16 {
+                    // an immediate add in between goes in front of everything still buffered
+                    w.add_part(ids[s], &data, meta).map_err(|e| e.to_string())?;
+                    model[s].push((data, meta));
+                } else {
+                    w.add_part_buffered(ids[s], data.clone(), meta);
+                    pending[s].push((data, meta));
+                }
+            }
+            w.flush_buffers().map_err(|e| e.to_string())?;
+            for s in 0..ns { let p = std::mem::take(&mut pending[s]); model[s].extend(p); }
+            w.close().map_err(|e| e.to_string())?;
+            let mut r = Archive::new_reader();
+            r.open(&path).map_err(|e| e.to_string())?;
+            for s in 0..ns {
+                if r.get_num_parts(ids[s]) != model[s].len() {
+                    rep.violation("C13:num_parts", "part count differs (long buffered history)", json!({"parts": n, "streams": ns, "pattern": pat}));
+                    continue;
+                }
+                for p in (0..model[s].len()).rev() {
+                    match r.get_part_by_id(ids[s], p) {
+                        Ok(g) if g == model[s][p] => {}
+                        other => { rep.violation("C13:buffered_commit_order", "buffered parts of a stream are not committed in insertion order", json!({"parts": n, "streams": ns, "pattern": pat, "stream": s, "part": p, "want_meta": model[s][p].1, "got_meta": other.map(|x| x.1).map_err(|e| e.to_string()).ok()})); break; }
+                    }
+                }
+            }
+            Ok(())
+        });
+        many.fetch_add(1, Ordering::Relaxed);
+        match r {
+            Ok(Ok(())) => {}
+            Ok(Err(e)) => rep.violation("C13:operation_error", &e, json!({"where": "many buffered parts"})),
+            Err(m) => rep.violation("C13:panic", &m, json!({"where": "many buffered parts", "at": short_loc(&last_panic_loc())})),
+        }
+        let _ = std::fs::remove_file(&path);
+    });
+    rep.set("long_buffered_histories", json!(many.load(Ordering::Relaxed)));
     let v = varint_sweep(&rep);
     let nm = name_and_meta_sweep(&rep, &format!("{}/names.agc", dir.display()));
     let _ = std::fs::remove_dir_all(&dir);
-    rep.eval(evals.load(Ordering::Relaxed) + v + nm);
+    rep.eval(evals.load(Ordering::Relaxed) + v + nm + many.load(Ordering::Relaxed));
     rep.nontriv(nontriv.load(Ordering::Relaxed));
     rep.set("op_alphabet_size", json!(alpha.len()));
     rep.set("depth", json!(depth));
